@@ -820,6 +820,62 @@ def is_cfg_test(attrs):
     return any(re.match(r'#\[cfg\(test\)\]', a) for a in attrs)
 
 
+NON_TABLE = ('lib', 'aml', 'gas', 'sdt')
+
+
+def implied_tags(mod, impl_ctx, name, cur):
+    """Dependency closure of the property tags: an obligation is tagged with every property whose
+    argument relies on it, not only with the one it was written for.
+      tables:  a wrong option bit is also a wrong image (C11 => C04); an entry's emitted bytes carry
+               the table's checksum, length, tiling, values and sink-independence arguments; its
+               constructor sets the type code / length field the C03 walk reads; `len()` feeds the
+               length and checksum deltas.
+      aml:     every serialiser is part of the C06 term tree and of C14; the alternative construction
+               paths (C15) and the PkgLength users (C07) too.
+      sinks:   everything observed through a sink relies on that sink's contract.
+      sdt:     the generic table's operations carry C01/C02/C13 together."""
+    add = set()
+    is_ser = (name == 'to_aml_bytes')
+    if mod not in NON_TABLE:
+        if 'C11' in cur:
+            add.add('C04')
+        if is_ser:
+            add |= {'C01', 'C02', 'C03', 'C04', 'C14'}
+        elif name == 'len':
+            add |= {'C01', 'C02', 'C03'}
+        elif name.startswith('new') and ('C04' in cur or 'C03' in cur):
+            add |= {'C03', 'C04'}
+        elif name.startswith(('add_', 'update_header', 'set_')) and (cur & {'C01', 'C02', 'C03', 'C04'}):
+            add |= {'C01', 'C02', 'C03', 'C04'}
+    elif mod == 'aml':
+        if impl_ctx.startswith('AmlSink for '):
+            add |= {'C06', 'C08', 'C14', 'C15'}
+        elif is_ser:
+            add |= {'C06', 'C14'}
+        elif cur & {'C07', 'C15'} and name in ('raw', 'add_element', 'new'):
+            add.add('C06')
+    elif mod == 'gas':
+        if 'C11' in cur:
+            add.add('C04')
+        if is_ser or name.startswith('new'):
+            add |= {'C04', 'C10', 'C14'}
+    elif mod == 'sdt':
+        if impl_ctx in ('Sdt', 'AmlSink for Sdt', 'Aml for Sdt'):
+            add |= {'C01', 'C02', 'C13'}
+            if impl_ctx != 'Sdt':
+                add.add('C14')
+    elif mod == 'lib':
+        if impl_ctx == 'AmlSink' or impl_ctx.startswith('AmlSink for alloc::vec::Vec'):
+            add |= {'C01', 'C04', 'C06', 'C08', 'C10', 'C13', 'C14'}
+        elif impl_ctx == 'AmlSink for Checksum':
+            add |= {'C01', 'C14', 'C17'}
+        elif impl_ctx == 'Checksum':
+            add |= {'C01', 'C17'}
+        elif 'TableHeader' in impl_ctx:
+            add |= {'C01', 'C02', 'C04', 'C14'}
+    return add - cur
+
+
 class Splicer:
     def __init__(self, repo, outdir, modules=None):
         self.repo = repo
@@ -1073,8 +1129,22 @@ class Splicer:
                     out.emit('    uninterp spec fn after(&self, k: Seq<u8>) -> Seq<u8>;\n    uninterp spec fn frame(&self) -> int;')
                     self.uncovered.append('%s::%s (no after() specification)' % (mod, key))
                 if it.kind == 'impl' and key.startswith('Aml for ') and not any('fn bytes' in t for t in ms.impl_items.get(key, [])):
-                    out.emit('    uninterp spec fn bytes(&self) -> Seq<u8>;')
-                    self.uncovered.append('%s::%s (no bytes() specification)' % (mod, key))
+                    tname = key[len('Aml for '):].strip()
+                    if any(pk['name'] == tname and pk['module'] == mod for pk in self.packed):
+                        # C14: a structure that can be added to a table through its raw in-memory form must
+                        # serialise to exactly that form.  An explicit `impl Aml` for such a structure
+                        # (where the pinned tree uses aml_as_bytes!) is held to the same contract.
+                        out.emit('    open spec fn bytes(&self) -> Seq<u8> { self.raw() }', fn='%s::%s::<spec items>' % (mod, key), kind='spec')
+                        fk = '%s::to_aml_bytes' % key
+                        if fk not in ms.fns:
+                            sp = FnSpec(fk)
+                            sp.tags = ['C04', 'C14']
+                            sp.inherited = True
+                            ms.fns[fk] = sp
+                        out.count('explicit impl Aml for a raw-form structure: bytes() == raw() imposed (C14)')
+                    else:
+                        out.emit('    uninterp spec fn bytes(&self) -> Seq<u8>;')
+                        self.uncovered.append('%s::%s (no bytes() specification)' % (mod, key))
                 self.emit_items(mod, ms, it.children, key)
                 out.emit('}')
             elif it.kind == 'fn':
@@ -1134,6 +1204,15 @@ class Splicer:
             for ls in spec.loops.values():
                 if not any('sink.frame()' in t for (_, t) in ls['invariant']):
                     ls['invariant'].append(([], 'sink.frame() == old(sink).frame()'))
+        if spec and not getattr(spec, '_implied_done', False):
+            # a property's check must see every obligation its argument depends on (DESIGN.md section 4a)
+            spec._implied_done = True
+            cur = set(t for (tg, _) in spec.ensures for t in tg) | set(spec.tags or [])
+            extra = implied_tags(mod, impl_ctx or '', sig.name, cur)
+            if extra:
+                spec.ensures = [((sorted(set(tg) | extra) if tg else tg), t) for (tg, t) in spec.ensures]
+            if spec.tags is not None or extra:
+                spec.tags = sorted(cur | extra)      # the body's obligations support every clause
         tags_all = sorted(set(t for (tg, _) in (spec.ensures + spec.requires if spec else []) for t in tg) | set(spec.tags or [] if spec else []))
         rec = dict(module=mod, key=key, fq=fq, covered=covered, trusted=bool(spec and spec.trusted),
                    tags=tags_all, body_tags=(spec.tags if spec and spec.tags is not None else tags_all),
@@ -1141,7 +1220,7 @@ class Splicer:
                    src_line=it.line, has_body=it.body is not None)
         self.fn_index.append(rec)
         if getattr(spec, 'inherited', False):
-            rec['nohints'] = 'new override of a defaulted sink method: no proof script exists for it'
+            rec['nohints'] = 'new trait-method implementation without a contract of its own: held to the inherited one, no proof script exists for it'
         if it.body is None:
             # trait method declaration
             out.emit('\n'.join(attrs + [header]))
